@@ -129,6 +129,19 @@ def check_C19(tier, seed, res, replay=None):
         v2 = vlib.tlc_validate("TraceLaws.tla", [ef])
         res.add_validation(v2)
         res.report_fails(v2["fails"], os.path.join(vlib.OUT, "viol"))
+    # the laws as a user of the command line sees them: results printed under state NAMES (operands with ordinary, suffixed
+    # and very long names; union / intersection results parsed back and judged by the language contracts), inclusion with
+    # and without the pruning switches -p / -s (pruning an operand first must not change a verdict)
+    import cli_arm
+    cli_cases, incl_cases = [], []
+    for i in range(1500 if tier == "thorough" else 300):
+        A, alpha = gen.rand_ta(rng)
+        B, _ = gen.rand_ta(rng, alpha=alpha)
+        B = gen.rename(B, {q: q + 10 for q in range(8)})
+        cli_cases.append({"id": ["cli", i], "cmd": rng.choice(["union", "isect", "isect"]), "A": A, "B": B})
+        incl_cases.append({"id": ["cliincl", i], "op": "incl", "A": A, "B": B, "src": "random"})
+    cli_arm.judge(res, rd, "c19ops", cli_arm.ta_op_events(cli_cases, rd), "TraceTA.tla")
+    cli_arm.judge(res, rd, "c19incl", cli_arm.incl_events(incl_cases, rd), "TraceTA.tla")
     # measured: how many verdicts were actually obtained (time-outs are not coverage)
     got = tot = 0
     for sh in sorted(__import__("glob").glob(os.path.join(rd, "c19.ev.*.ndjson"))):
